@@ -26,7 +26,7 @@ CLAIMED = {
         "unbounded z3 integers, pixels reals, shapes 1..3 (quick) / 1..4 (thorough) squared for input and detector; "
         "np.intersect1d forks on membership so the finitely many overlap configurations are enumerated by the solver "
         "while the no-overlap half-lines stay symbolic; per path z3 decides pixelwise placement, rejection iff no "
-        "overlap, alignment geometry; freshness: history write A, load, rewrite B, load through the real cache on real files, for seven stat-level rewrite cases (+1 ns, +50 ms, +0.9 s, +1 s, -1 us, -1 s with equal size; equal mtime with size + 1) and three loaders. First sentence (formats): concrete witness layer only - write / read cycles of boundary values for eight dtypes in npy / FITS, scaled FITS and five text layouts through pyxel.inputs.load_image. The loader itself (load_cropped_and_aligned_image) with symbolic offsets on the cached and the un-cached route.",
+        "overlap, alignment geometry; freshness: history write A, load, rewrite B, load through the real cache on real files, for seven stat-level rewrite cases (+1 ns, +50 ms, +0.9 s, +1 s, -1 us, -1 s with equal size; equal mtime with size + 1) and three loaders. First sentence (formats): concrete witness layer only - write / read cycles of boundary values for eight dtypes in npy / FITS, scaled FITS and five text layouts through pyxel.inputs.load_image. The loader itself (load_cropped_and_aligned_image) with symbolic offsets on the cached and the un-cached route. Tables: concrete witness layer over five delimiters x three extensions x four missing-value layouts (and npy) through pyxel.inputs.load_table.",
         "Format decoders (np.load, astropy FITS, text sniffing) are third-party / C code: witness runs, not symbolic. "
         "pyxel.inputs.load_image is a stub reading a symbolic file store in the freshness harness.",
         "dynamic symbolic execution of the real Python code (vx) + z3 LIA/LRA, path-witness replay",
@@ -39,7 +39,7 @@ CLAIMED = {
         "as its own obligation) for every listed (resolution, concrete voltage range): bounds, low/full-scale saturation, "
         "no-wrap for 10 (quick) / 61 (thorough) resolutions, monotonicity for <= 8 / 10 bits; decided by cvc5 (z3 fall-back). "
         "Symbolic voltage range: bug-hunting under a time cap. Real-arithmetic layer: all clauses for every range, every listed "
-        "resolution; SAR bounds/full-scale up to 24 (64) bits, SAR monotone <= 8 (12) bits, zero-noise equivalence (reals, and exact Float64 for concrete range maxima 3.3 / 0.7 V quick, plus 1.8 / 0.2048 / 5.0 V thorough, 4..12 bits); float32 / float16 signal frames: every number parked in a narrow float array is recorded and integers among them must fit the mantissa (side condition that makes the real-arithmetic verdicts valid for those frames); simple_adc / sar_adc on a detector still holding the image of a lower-resolution conversion (all pairs of storage classes).",
+        "resolution; SAR bounds/full-scale up to 24 (64) bits, SAR monotone <= 8 (12) bits, zero-noise equivalence (reals, and exact Float64 for concrete range maxima 3.3 / 0.7 V quick, plus 1.8 / 0.2048 / 5.0 V thorough, 4..12 bits); float32 / float16 signal frames: every number parked in a narrow float array is recorded and integers among them must fit the mantissa (side condition that makes the real-arithmetic verdicts valid for those frames); simple_adc / sar_adc on a detector still holding the image of a lower-resolution conversion (all pairs of storage classes); the data_type option of simple_adc for every (storage class, requested type) pair with fixed-width wrap modelled: refused with nothing stored, or stored wide enough, full scale and ordered.",
         "NaN inputs excluded; exact-FP verdicts hold for the listed concrete ranges; FP monotonicity beyond 8/10 bits is out of "
         "solver reach (stated), covered only by the real-arithmetic layer; cvc5/z3 trusted.",
         "symbolic execution of the real Python code (vx) to QF_FP / LRA terms, decided by cvc5 and z3",
@@ -62,9 +62,9 @@ CLAIMED = {
         "ParameterValues boundaries, ModelFittingDataTree._set_bound/get_bounds/convert_to_parameters/update_processor and "
         "Processor.set/get executed with symbolic boundary pairs and symbolic decision vectors (1-D and 2-D) for every layout of "
         "1..3 variables (scalar / vector of 1..2 (3) placeholders, shared or per-component boundaries, linear or logarithmic): "
-        "bound vectors, value = dv or 10**dv by owner, inside [lo,hi], slices applied to the right keys, reported == applied. Best-individual reporting: the real get_best_individuals on a stub archipelago for all 6 fitness rankings x 1..3 requested individuals (reported parameters are the conversion of the reported decision vectors).",
+        "bound vectors, value = dv or 10**dv by owner, inside [lo,hi], slices applied to the right keys, reported == applied. Best-individual reporting: the real get_best_individuals on a stub archipelago for all 6 fitness rankings x 1..3 requested individuals (reported parameters are the conversion of the reported decision vectors). Evaluated candidates: concrete witness layer - real pygmo runs (sade, nlopt neldermead / slsqp / lbfgs quick; + sga, bobyqa, mma thorough) on a two-parameter problem with the optimum on the box faces plus every evaluation entry point the pygmo problem exposes (fitness, gradient, hessians, batch_fitness) at a solver-chosen corner: every value the pipeline is run with lies in the box.",
         "10**x/log10 are uninterpreted functions constrained to be mutually inverse and monotone (real arithmetic); pygmo keeping "
-        "candidates inside the box is outside.",
+        "candidates inside the box is covered by the witness runs only (C++).",
         "dynamic symbolic execution of the real Python code (vx) + z3 LRA+UF",
         "DESIGN.md section 4 C10",
     ),
@@ -77,7 +77,7 @@ CLAIMED = {
         "target[target range], weights), each pair with its own processor, parameter applied.",
         "run_pipeline and xarray.DataArray are recording stand-ins in the accumulation harness (the stand-in frame depends on the seed the run is "
         "given, an unseeded run on a fresh unknown); champion re-simulation is decided at the level of _apply_parameters (same processor, parameter, "
-        "readout and seed-dependent frame as fitness()); settings re-declared through attributes after construction (fit ranges, weights, seed; symbolic) are what run_calibration hands to the fitting problem; champion reporting (_get_champions) is executed against an archipelago stub under pygmo's contract (an island's champion is its best-ever individual and never gets worse): reported == best-ever, hence never worse than before; pygmo honouring that contract is assumed; NaN handling outside (real arithmetic).",
+        "readout and seed-dependent frame as fitness()); settings re-declared through attributes after construction (fit ranges, weights, seed; symbolic) are what run_calibration hands to the fitting problem; champion reporting (_get_champions) is executed against an archipelago stub under pygmo's contract (an island's champion is its best-ever individual and never gets worse): reported == best-ever, hence never worse than before; pygmo honouring that contract is assumed; integer-typed target files with real weights; NaN handling outside (real arithmetic).",
         "dynamic symbolic execution of the real Python code (vx) + z3 LIA/NRA, path-witness replay",
         "DESIGN.md section 4 C11",
     ),
@@ -85,9 +85,9 @@ CLAIMED = {
         "model_checking",
         "Real Charge methods executed with symbolic array values, cluster numbers and cluster positions (any real, including negative and "
         "beyond-range), pixel sizes symbolic (single cluster) or from a stated list: binning on 2x3 / 1x2 geometries with 1..2 clusters, all "
-        "histories of <= 3 operations over {array add, cluster add, read, reset} (+ final read), reset-in-the-middle histories of length 4 and 13 histories with removal by id, on a 1x2 geometry, against an independent "
+        "histories of <= 3 operations over {array add, cluster add, read, reset} (+ final read), reset-in-the-middle histories of length 4 and histories with removal by id of the newest (X) and of the oldest (Y) cluster (ids with gaps), on a 1x2 geometry, against an independent "
         "per-pixel accumulator; the binning loop runs un-jitted with numba index semantics, so an index outside the array is a reported event.",
-        "Real arithmetic (positions exactly on pixel borders follow exact floor); removals are covered for the most recently added cluster only; "
+        "Real arithmetic (positions exactly on pixel borders follow exact floor); removals are covered for the newest and the oldest cluster; "
         "the cluster table is a real pandas DataFrame holding symbolic cells; numba.njit is the identity during the symbolic run and replays "
         "run the real jitted code with numba bounds checking on.",
         "dynamic symbolic execution of the real Python code (vx) + z3 LRA/LIA, path-witness replay",
@@ -100,7 +100,7 @@ CLAIMED = {
         "the three sweep routes (Processor.set, Processor.replace, create_new_processor) accept <=> documented range (independent table); stored value equals the given one, an accepted sweep value is the value the new processor holds, a refused value is not stored. "
         "_build_configuration / to_* builders on a mapping with symbolic numeric leaves for 4 detector types x {exposure, observation}: "
         "every attribute of detector, readout, pipeline and parameter list equals its leaf; 3+4 presence flags (128 patterns): exactly one "
-        "running mode and one detector.",
+        "running mode and one detector. Mode settings of the built configuration (outputs folder, custom_dir_name, save list, pipeline seed, dask flag) equal the file's; counterexamples are replayed through pyxel.load on a generated YAML file.",
         "YAML text parsing and textual numpy.* expressions outside; calibration builder outside; 'running the file gives the same results' "
         "is not decided; the documented ranges are a table written from docstrings and error messages.",
         "dynamic symbolic execution of the real Python code (vx) + z3 LRA/LIA/FP, path-witness replay",
@@ -112,7 +112,7 @@ CLAIMED = {
         "empty or holding a valid array with symbolic values, one operation in {set, update, +=, +} with an argument of 13 numpy dtypes "
         "x 5 shapes (right, transposed, broadcastable, extra axis, scalar) and symbolic values, plus empty/read/==; the validity invariant "
         "(detector shape, allowed dtype family, photon >= 0 after assignment), 'refused operations keep the content', 'reading empty raises', "
-        "and the definition + symmetry of == are decided per path; numpy's own casting/broadcast verdicts come from ghost arrays.",
+        "and the definition + symmetry of == (also between containers of different detector shapes, empty or filled) are decided per path; numpy's own casting/broadcast verdicts come from ghost arrays.",
         "Real arithmetic plus an IEEE layer for the photon sign rule (NaN, +-inf, -0.0); multi-wavelength photons through a recording stand-in for "
         "xarray.DataArray: 3-D set / += and 2-D set / array_2d / update (valid and invalid) on empty, 2-D and 3-D pre-states; histories follow by "
         "induction on the invariant.",
@@ -126,7 +126,7 @@ CLAIMED = {
         "on/off patterns: all 45 group pairs x 2 models (16 patterns each), 3 models inside each of the 10 groups, 8 (quick) / 10 (thorough) "
         "groups x 1 model (256 / 1024 patterns), 1..3 readouts, debug on/off, pipelines built from Python objects and from mappings with "
         "group keys reversed / rotated, absent groups as None / [] / missing. Per path the probe trace is compared with the order written "
-        "in the harness from the statement (once per step, disabled never, kwargs terms exact, detector identity). Re-use: a pipeline object that was already run / printed / iterated gets a second symbolic on/off pattern and must execute exactly the models enabled now. Every group also in the three modes that work on copies of the processor: sequential observation, the function each dask worker executes, and the fitness evaluation of calibration. Every probe is additionally configured with null, zero, empty-text, False and empty-list arguments, which must arrive with their names, types and values.",
+        "in the harness from the statement (once per step, disabled never, kwargs terms exact, detector identity). Re-use: a pipeline object that was already run / printed / iterated gets a second symbolic on/off pattern and must execute exactly the models enabled now. Every group also in the three modes that work on copies of the processor: sequential observation, the function each dask worker executes, and the fitness evaluation of calibration. Every probe is additionally configured with null, zero, empty-text, False and empty-list arguments, which must arrive with their names, types and values. One mapping object listed in several groups (what a YAML alias produces) builds every occurrence with the same flag and arguments.",
         "YAML text parsing, pygmo's evolution loop and dask graph scheduling are outside; an always-enabled helper model initialises the buckets the real "
         "exposure loop needs to build its result.",
         "dynamic symbolic execution of the real Python code (vx) + z3 (Bool/LIA/LRA equalities), path-witness replay",
@@ -138,7 +138,7 @@ CLAIMED = {
         "solver enumerates every feasible crash point (plus the no-fault path) through the real pyxel.run_mode in exposure and sequential "
         "observation (3 runs x 1..3 steps x 2..4 models, 17 exception classes incl. StopIteration and a user subclass; swept values of kind int, float, str, list, bool, numpy float) and through ModelFittingDataTree.fitness: the same exception "
         "object reaches the caller, notes name group and model (and the failing run's parameter values), no result is returned, nothing runs "
-        "after the fault, later runs never start. Solver-found crash points are replayed concretely in the dask path (.load()); calibration mode (initial population and evolution, real pygmo, 1 island) is covered by concrete witness runs over exception classes and fault positions; the symbolic crash point is also driven through pyxel.run on generated YAML files (exposure and observation).",
+        "after the fault, later runs never start. Solver-found crash points are replayed concretely in the dask path (.load()); calibration mode (initial population and evolution, real pygmo, 1 island) is covered by concrete witness runs over exception classes and fault positions; the symbolic crash point is also driven through pyxel.run on generated YAML files (exposure and observation); disabled models are listed in front of the probes so that positions among enabled models differ from positions in the group.",
         "dask graph execution and pygmo (C++) are concrete witness runs only, not symbolic.",
         "dynamic symbolic execution of the real Python code (vx) + z3 LIA (symbolic crash point), concrete replay for dask",
         "DESIGN.md section 4 C09",
@@ -153,7 +153,7 @@ CLAIMED = {
         "same runs (each cell at the coordinates carrying its own values). Labels of the merged result: every path witness is replayed "
         "through the real run_mode and selected by label. Parallel path per cell: for all orders of three keys (two with colliding short names) the dimension-name "
         "mapping lists the keys in declaration order and the real dask worker function hands every model the value requested for its own key. Value lists given as "
-        "textual numpy expressions (four expressions, product and sequential mode) yield one run per evaluated value.",
+        "textual numpy expressions (four expressions, product and sequential mode) yield one run per evaluated value. The parallel parameter array is compared by label for ascending, descending and shuffled value lists.",
         "Lists are assumed strictly monotone in symbolic runs (pandas sorts index levels); coordinate attachment and xr.merge are "
         "checked on solver-chosen witnesses only; numpy.* range strings and dask execution outside.",
         "dynamic symbolic execution of the real Python code (vx) + z3 (equalities over opaque terms), concrete label replay per path",
@@ -166,7 +166,7 @@ CLAIMED = {
         "other leaf keeps its initial term (frame condition), or it raises and nothing changed. Misspelt / truncated / extended / swapped keys "
         "(6 mutations of 5 base keys) at every entry point (set, has, validate_steps, apply_overrides, update_processor): refused, no attribute "
         "created, state unchanged; arguments of a disabled model (flag symbolic) and undeclared arguments are errors; same-named models in different groups; keys applied through Processor.replace twice (base processor and sibling copies independent, enabled and disabled models); "
-        "list values: falsy / text / mixed / nested cases and all ordered pairs and rotating triples over a pool of 13 element kinds. eval_entry: decimal "
+        "list values: falsy / text / mixed / nested cases and all ordered pairs and rotating triples over a pool of 13 element kinds; calibration variable keys with one- and multi-placeholder lists (update_processor assigns a value of the declared shape). eval_entry: decimal "
         "renderings and a sample list in vx, arbitrary strings of length <= 3 (4) with CrossHair.",
         "The eval_entry sub-check over arbitrary strings is bug-hunting only (ast.literal_eval is C code: CrossHair realises the string); "
         "literals denoting None/dict/set/bytes are unspecified; assigned numeric values are assumed inside the documented ranges.",
@@ -181,7 +181,7 @@ CLAIMED = {
         "state term == initial term, seeded draws do not depend on the prior state (substitution of a fresh initial state). 15 stochastic model "
         "functions on real detectors: restored when seeded (also when the model fails late), draws independent of the prior state, no re-seeding "
         "without a seed; called twice on identical detectors from the same generator state every model consumes the same draws and leaves the same buckets (no process-level memo). Seed plumbing with a symbolic pipeline seed through real run_mode (exposure, sequential observation), the deprecated exposure entry point, the dask worker "
-        "function, fitness(), _apply_parameters and Calibration.run_calibration (archipelago stubbed); the optimiser seed is solver-chosen among 0, 1, 7, 100000 and must reach the archipelago, pygmo's global seed and the attribute unchanged. Nested seeding contexts (a model seed inside a pipeline seed, symbolic seeds, 0..3 draws each); generators created from operating-system entropy are recorded and must not occur under a seed; charge_deposition runs with the shipped stopping-power table.",
+        "function, fitness(), _apply_parameters and Calibration.run_calibration (archipelago stubbed); the optimiser seed is solver-chosen among 0, 1, 7, 100000 and must reach the archipelago, pygmo's global seed and the attribute unchanged. Nested seeding contexts (a model seed inside a pipeline seed, symbolic seeds, 0..3 draws each); generators created from operating-system entropy are recorded and must not occur under a seed; charge_deposition runs with the shipped stopping-power table; every stochastic model also on a detector at a later readout step.",
         "Bit-identity of results additionally assumes numpy's generator and pygmo are deterministic functions of their seeds; local generators "
         "are not modelled; models needing external files (cosmix, charge_deposition, nghxrg, qe maps) are not exercised; pulse_processing's "
         "deterministic physics is stubbed (170 s per pixel).",
@@ -191,7 +191,7 @@ CLAIMED = {
     "C06": (
         "model_checking",
         "One inductive step from an arbitrary valid state (symbolic detector fields, symbolic 2x2 buckets, detector memory, trapped charge, "
-        "model arguments incl. mutable lists/dicts, symbolic enabled flags, the caller's Observation with its Readout): new = f(processor, {key: v}) for deepcopy, create_new_processor, Processor.replace, "
+        "model arguments incl. mutable lists/dicts, detector memory filled in place, symbolic enabled flags, the caller's Observation with its Readout): new = f(processor, {key: v}) for deepcopy, create_new_processor, Processor.replace, "
         "update_processor, build_processors and 9 keys (incl. observation.readout.times); the copy differs from the original in exactly the targeted leaf (== v), shares no "
         "object with it, and after the copy is havocked (fresh value in every leaf, arrays mutated in place, mutable arguments appended to, a "
         "model mutating its arguments and the detector memory run through the real _run_single_pipeline) every leaf of the caller's processor "
@@ -209,7 +209,7 @@ CLAIMED = {
         "harness. The asdf module is a stand-in store (contract: returns the tree it was given); every path witness is additionally replayed "
         "through the real ASDF library on disk. The load_detector model, called directly and inside a pipeline, must replace the running "
         "detector's buckets by the file's (arbitrary) contents - also when the same file is loaded a second time after the running detector changed - and later models must see them. "
-        "The processed-data tree has a variable group, a coordinate-only parent and an empty leaf.",
+        "The processed-data tree has a variable group, a coordinate-only parent and an empty leaf. Result of a running mode after the load model (exposure / observation, load first or after a writer, 1-2 steps: solver-chosen; real ASDF file, concrete values): last-step buckets and the /data group of the result are the file's, later models see them.",
         "HDF5 is outside (h5py not installed); scene / processed-data / 3-D photon contents are concrete; the real ASDF library is exercised "
         "by concrete witness replays only.",
         "dynamic symbolic execution of the real Python code (vx) + z3 equalities, per-path witness replay through the real ASDF library",
@@ -226,7 +226,7 @@ CLAIMED = {
         "save_to_files reports every request once and never overwrites. Contents: Outputs.save_to_file with recording writers and a symbolic image / "
         "pixel bucket over ordered format lists (all ordered pairs of fits/npy/jpg/png/txt plus longer lists): every lossless writer receives exactly "
         "the bucket (values, dtype), picture writers its 8-bit preview, the bucket is untouched. save_to_files under rotations of three save lists (same bucket in non-adjacent entries). Existence of a foreign path is re-sampled at every "
-        "observation (monotone), so a directory appearing between a test and the creation is covered; a non-terminating candidate loop is an obligation.",
+        "observation (monotone), so a directory appearing between a test and the creation is covered; a non-terminating candidate loop is an obligation. End-to-end witness exposures (clusters / arrays / both, 1-2 (4) steps, with and without a FITS header of a raw uint16 frame on the detector): every reported npy / FITS file equals the result bucket.",
         "Write primitives are recorders honouring their documented overwrite contract; the encoders themselves (astropy, numpy, PIL: bytes on disk) "
         "and the HDF5 writer are outside the symbolic claim (concrete replays write and read back real files); OS-level atomicity of mkdir assumed.",
         "dynamic symbolic execution of the real Python code (vx) + z3 Bool/LIA over a symbolic file system",
@@ -239,7 +239,7 @@ CLAIMED = {
         "photon, which optional buckets are written, debug); each witness is run end-to-end through the real pyxel.run_mode in both result "
         "layouts (and with debug) with a last-in-step probe snapshotting every bucket, and the returned DataTree is compared slice by slice: "
         "values, one slice per readout, absolute-time labels, row/column labels, image dtype, flat == hierarchical, debug does not change the "
-        "result; per model and per step (three-model pipeline, both readout modes) the recorded buckets are those the model changed. The comparison is concrete: this is exploration on solver-chosen inputs, not a proof.",
+        "result; per model and per step (three-model pipeline, both readout modes) the recorded buckets are those the model changed; charge written as particles and edited in place by the next model (three kinds of edit) against a reference computed from the dataframe, with and without debug. The comparison is concrete: this is exploration on solver-chosen inputs, not a proof.",
         "xarray / pandas cannot hold symbolic values, so C03 is not decided symbolically; every step writes the image bucket (real pyxel "
         "cannot merge >= 2 steps otherwise).",
         "concolic input generation with vx + z3 (one witness per path), concrete end-to-end comparison",
@@ -248,7 +248,7 @@ CLAIMED = {
     "C17": (
         "model_checking",
         "The real exposure loop and the real flux-integrating models (uniform / rectangular / elliptic illumination, load_image, stripe_pattern, "
-        "load_charge, simple_conversion without sampling, simple_collection; load_image also as ADU with the photon-transfer conversion; 7 model sets; exposures on a detector that was exposed before with the same times and another start time) run on symbolic schedules: start, end and interior "
+        "load_charge, simple_conversion without sampling, simple_collection; load_image also as ADU with the photon-transfer conversion; 7 model sets; CCD, CMOS, MKID and APD detectors; exposures on a detector that was exposed before with the same times and another start time) run on symbolic schedules: start, end and interior "
         "readout times, levels, file contents, quantum efficiency (time scales symbolic in the per-model sets). Non-destructive: final pixel frame of "
         "one readout at `end` == final frame of n readouts with symbolic interior points (n <= 4 quick, <= 12 thorough) and == rate x (end - start); "
         "destructive: frame i == rate x (t_i - t_(i-1)) and scaling all intervals by a symbolic lambda scales every frame by lambda. Every path "
